@@ -28,6 +28,37 @@ class Violation(Exception):
         return (self.prop, self.env, self.monitor, self.cls)
 
 
+class ConstructionRaised(Exception):
+    """Building the system under simulation from a menu configuration raised. Every menu entry is a documented, valid
+    constructor call (it builds on the unchanged tree), so this is reported as a violation (class construction_raised)."""
+
+    def __init__(self, orig: BaseException):
+        super().__init__(f"{type(orig).__name__}: {orig}")
+        self.orig = orig
+
+
+def construct(fn: Any, *args: Any, **kw: Any) -> Any:
+    try:
+        return fn(*args, **kw)
+    except Exception as e:  # noqa: BLE001
+        raise ConstructionRaised(e) from e
+
+
+def construction_result(task: Dict[str, Any], e: "ConstructionRaised") -> Dict[str, Any]:
+    cfg = task["cfg"]
+    o = e.orig
+    v = {"property": task["prop"], "env": task["env"], "config": cfg, "seed": task["seed"], "shard": task["shard"], "run": 0,
+         "monitor": "execution", "class": "construction_raised:" + type(o).__name__,
+         "detail": f"building {task['env']} from configuration {cfg['id']} raised {type(o).__name__}: {str(o)[:300]}",
+         "ops": [], "ops_unminimised": [], "plan": {}}
+    for k in ("kind", "aggregators", "B", "flag", "scan_len"):
+        if k in task:
+            v[k] = task[k]
+    return {"task": {k: task[k] for k in ("prop", "env", "shard")} | {"cfg": cfg["id"]}, "runs": 0, "attempted": 0, "steps": 0,
+            "faults": {}, "policies": {}, "transports": {}, "probes": {"construction_raised": 1}, "checks": {}, "states": b"",
+            "n_states": 0, "digests": [], "nontrivial": [], "samples": [], "violations": [v], "det_ok": None, "wall": 0.0}
+
+
 class Stats:
     """Counters a worker accumulates; merged by the engine."""
 
@@ -193,7 +224,7 @@ def drive(sysm: Sys, prop: str, monitors: Sequence[Monitor], source: OpSource, s
     assert op[0] == "reset"
     ops.append(op)
     try:
-        jstate, jts = sysm.reset(op[1])
+        jstate, jts = _answered(ctx, "reset", sysm.reset, op[1])
         rec = Rec()
         rec.kind = "reset"
         rec.jstate = jstate
@@ -221,7 +252,7 @@ def drive(sysm: Sys, prop: str, monitors: Sequence[Monitor], source: OpSource, s
             nrec.fault = op[2] if len(op) > 2 else None
             nrec.prev_state, nrec.prev_ts, nrec.jprev = rec.state, rec.ts, rec.jstate
             nrec.post_terminal = seen_last
-            jstate, jts = sysm.step(rec.jstate, op[1])
+            jstate, jts = _answered(ctx, f"step {t}", sysm.step, rec.jstate, op[1])
             nrec.jstate = jstate
             nrec.state, nrec.ts = util.to_np((jstate, jts))
             stats.steps += 1
@@ -249,6 +280,16 @@ def drive(sysm: Sys, prop: str, monitors: Sequence[Monitor], source: OpSource, s
         raise
     stats.runs += 1
     return ops, h.hexdigest()
+
+
+def _answered(ctx: Ctx, where: str, fn: Any, *args: Any) -> Any:
+    """The simulator only sends well-formed requests (keys, and actions inside the action spec). An environment that
+    raises on one (shape / dtype / tracer errors in some configuration or after some history) returns nothing of what
+    the property under check says it returns: reported as a violation of that property, class ``request_raised``."""
+    try:
+        return fn(*args)
+    except Exception as e:  # noqa: BLE001
+        ctx.fail("execution", "request_raised:" + type(e).__name__, f"{where}: the environment raised {type(e).__name__}: {str(e)[:300]}")
 
 
 def _reach(ctx: Ctx, rec: Rec) -> None:
